@@ -1547,6 +1547,22 @@ def gated_expr(v, expr, at, via=None):
     return [(_true(v), v.term(expr, at=at, via=via), None)]
 
 
+def returned_call(v, r):
+    """the call whose result statement `r` returns: `return f(...)` itself, or the single assignment `x = f(...)` that reaches
+    `return x` -> (Call node, statement to evaluate its arguments at), or (None, r)"""
+    if isinstance(r.value, ast.Call):
+        return r.value, r
+    if isinstance(r.value, ast.Name):
+        IN, _ = v.cfg.reaching(None)
+        ds = sorted(IN.get(v.cfg.node(r).id, {}).get(r.value.id) or ())
+        if len(ds) == 1:
+            st = v.cfg.nodes[ds[0]].stmt
+            if isinstance(st, ast.Assign) and len(st.targets) == 1 and isinstance(st.targets[0], ast.Name) and \
+                    isinstance(st.value, ast.Call):
+                return st.value, st
+    return None, r
+
+
 def expand_conditional_values(v, gated):
     """gated alternatives whose value is a conditional expression (`x = a if c else b`) as one alternative per arm, the test
     (or its negation) joined to the gate: the same list the two-armed `if c: x = a  else: x = b` gives"""
